@@ -241,6 +241,10 @@ def run(ctx):
   # on the steps whose roots were not refreshed)
   from . import C04
   C04.sharded_metrics(ctx)
+  # the error the gate reads is the one the root routine reported: the per-device helpers return the batched result
+  # (roots AND metrics) of the root routine itself
+  from . import C13
+  C13.vmapped_roots(ctx)
 
 
 def run_gate(ctx):
